@@ -270,9 +270,7 @@ spif_mbuff_init_from_fd(spif_mbuff_t self, int fd)
 
         for (p = self->buff; (cnt = read(fd, p, buff_inc)) > 0; p = self->buff + self->len) {
             self->len += cnt;
-            if (cnt < buff_inc) {
-                break;
-            } else {
+            if ((size_t) (self->size - self->len) < buff_inc) {
                 self->size += buff_inc;
                 self->buff = (spif_byteptr_t) REALLOC(self->buff, self->size);
             }
